@@ -101,16 +101,23 @@ class C05Oracle(BaseOracle):
         names = e._sim_names
         d = len(names)
         n = ctx.op.get("n_inner", eff["n_inner"])
+        # The explained data: the reference's own model of the window / the rows handed to explain_many.  A batch
+        # model call, when the library makes one, must be over exactly that data; how the library obtains the mean
+        # prediction is otherwise its own business (the stub model is pure, the reference evaluates it itself).
         mbs = [ev for ev in ctx.events if ev[0] == "MB"]
-        if len(mbs) < 1:
-            return self.v("no-batch-prediction", "recomputation without a prediction over the explained data",
-                          explainer=k, cls=ecfg["cls"])
-        xs, outs = mbs[0][1], mbs[0][2]
+        if xs_expected is not None:
+            xs = xs_expected
+            if mbs and mbs[0][1] != xs_expected:
+                return self.v("explained-data", "explained %d rows %r, expected the %d rows %r"
+                              % (len(mbs[0][1]), [row_tag(w, x) for x in mbs[0][1]], len(xs_expected),
+                                 [row_tag(w, x) for x in xs_expected]), explainer=k, cls=ecfg["cls"])
+        elif mbs:
+            xs = mbs[0][1]
+        else:
+            self.probe("explained_data_unobservable")
+            return None
+        outs = [w.model_fn(x) for x in xs]
         N = len(xs)
-        if xs_expected is not None and xs != xs_expected:
-            return self.v("explained-data", "explained %d rows %r, expected the %d rows %r"
-                          % (N, [row_tag(w, x) for x in xs], len(xs_expected), [row_tag(w, x) for x in xs_expected]),
-                          explainer=k, cls=ecfg["cls"])
         if N == 0:
             return None
         if ys_expected is None and w.values != "unique":
@@ -142,7 +149,7 @@ class C05Oracle(BaseOracle):
                           % (got_sum, want_sum, N, "original" if original else "imputer"),
                           explainer=k, cls=ecfg["cls"], original=bool(original))
         # ---- per-feature reference -------------------------------------------------------------
-        first_mb = next(i for i, ev in enumerate(ctx.events) if ev[0] == "MB")
+        first_mb = next((i for i, ev in enumerate(ctx.events) if ev[0] == "MB"), -1)
         rest = ctx.events[first_mb + 1:]
         explicit = "imputer" in ecfg and not original
         groups = []
